@@ -10,6 +10,7 @@ from __future__ import annotations
 import numpy as np
 
 from . import c01, geom
+from .c01 import F32EDGE
 from .core import Check
 from .tlc import MachineryError, validate_trace
 
@@ -48,8 +49,11 @@ def replay_family(chk: Check, fam, data, tier):
         chk.nontrivial_n += int(((E == 1).any(axis=1) & (E == 0).any(axis=1)).sum())   # shapes with both answers
         chk.sample({"shape_kind": kind, "shape": elems[min(3, len(elems) - 1)], "point": pts[npt // 2],
                     "expect": int(E[min(3, len(elems) - 1), npt // 2])})
-        for aff in geom.IMAGES:
-            for subtype in geom.SUBTYPES:
+        # (image, subtype of the shapes, subtype of the points); the last combination: float32 shapes on integers just above 2^23 and float64
+        # points on half-integers there, which float32 cannot represent - the points must not be narrowed to the shapes' type
+        combos = [(a_, s_, s_) for a_ in geom.IMAGES for s_ in geom.SUBTYPES] + [(F32EDGE, "float32", "float64")]
+        for aff, subtype, psub in combos:
+            if True:
                 integer = np.dtype(subtype).kind == "i"
                 keep = [i for i, e in enumerate(elems) if not (integer and geom.has_special(e))]
                 if integer and not aff.integral():
@@ -60,7 +64,7 @@ def replay_family(chk: Check, fam, data, tier):
                 if not els or not geom.representable(kind, els, aff, subtype):
                     continue
                 shapes = geom.make_array(kind, [geom.NULL] + els, aff, subtype)
-                parr, off = point_array(pts, aff, subtype, with_missing=not integer)
+                parr, off = point_array(pts, aff, psub, with_missing=not integer)
                 n = len(parr)
                 inds = np.array([chk.rng.randrange(n) for _ in range(n // 2)] + [n - 1, 0, 0])
                 ser = None
